@@ -341,6 +341,24 @@ class Exec:
             self.oblige("define", g, f"{fname.strip()} is well defined: {ex.strip()} is a function of {rest.strip()[:-1]} only", node,
                         tag=fname.strip())
             self.assume(_uf(fname.strip(), len(aterms))(*aterms) == vterm)
+        elif kind == "defrec":
+            # defrec f(a, b) : real = <body mentioning f> - recursive spec function defined at this point of the execution (its body
+            # may mention the current values of locals, e.g. a quadrature table just obtained)
+            import re as _re
+            m_ = _re.match(r"\s*(\w+)\s*\(([^)]*)\)\s*:\s*(\w+)\s*=\s*(.*)$", body, _re.S)
+            if not m_:
+                raise Unsupported("ghost statement " + cl)
+            rname, rargs, rsort, rbody = m_.group(1), [a.strip() for a in m_.group(2).split(",") if a.strip()], m_.group(3), m_.group(4)
+            from . import verify as _vf
+            _vf._REC_COUNTER[0] += 1
+            f_ = z3.RecFunction(f"rec_{rname}_{_vf._REC_COUNTER[0]}", *([z3.IntSort()] * len(rargs)), V.sort_of(rsort))
+            zs_ = [z3.Int(fresh_name("r_" + a)) for a in rargs]
+            if not hasattr(self.ctx, "recfuns"):
+                self.ctx.recfuns = {}
+            self.ctx.recfuns[rname] = (lambda ex_, a_, k_, n_, f=f_: f(*[to_z3(x, "int") for x in a_]))
+            e2_ = dict(cenv)
+            e2_.update(dict(zip(rargs, zs_)))
+            z3.RecAddDefinition(f_, zs_, to_z3(self.eval_clause(rbody, e2_, NORESULT), rsort))
         elif kind == "append":
             # append <listmap>, <key>, <value>: ghost append to row <key> of a ghost dict-of-lists
             lm_, key_, val_ = self.eval_clause("(" + body + ",)", cenv, NORESULT)
